@@ -197,8 +197,10 @@ OBS_CLASS = {"regions": "lexing", "real_code": "lexing", "custom_generator": "lo
 
 # the structural features that can explain a failure of each observable class (others are ignored in signatures)
 # (glue, xid, fromname and kwdot are features of FIXED defects: they are generated, but explain nothing any more)
-RELEVANT = {"lexing": {"fnest", "fnl", "fbrace"}, "logical": {"escq", "adjstr"}, "llf": {"blockish"},
-            "words": {"bsbr", "dotnum", "fquote"}, "lines": set(), "crash": set()}
+# (an f-literal that rope's regular expression cannot delimit also derails the per-line scanner and the word finders
+#  after it: fnest / fnl explain failures of those classes from the literal's line on)
+RELEVANT = {"lexing": {"fnest", "fnl", "fbrace"}, "logical": {"escq", "adjstr", "fnest", "fnl"}, "llf": {"blockish"},
+            "words": {"bsbr", "dotnum", "fquote", "fnest", "fnl", "fbrace"}, "lines": set(), "crash": set()}
 
 
 def explains(feat, text, facts, fail):
@@ -208,15 +210,29 @@ def explains(feat, text, facts, fail):
     info = fail[3] if len(fail) > 3 else {}
     line_of = lambda o: text.count("\n", 0, o) + 1
     fstr = [(a, b, q, nested) for (a, b, q, nested) in facts.fstrings]
+    bol = lambda o: text.rfind("\n", 0, o) + 1
+    rng_ = info.get("range") if ob in ("custom_generator", "logical_line_in") else None
+
+    def at_or_after(a, b):
+        if ob == "regions":
+            return a <= off <= b
+        if rng_ is not None:                 # a wrong logical line: the literal lies in or before the failing range
+            return line_of(a) <= max(rng_)
+        return off >= bol(a)
     if feat == "fnest":
-        return any(nested and (a <= off <= b if ob == "regions" else off >= a) for (a, b, q, nested) in fstr)
+        return any(nested and at_or_after(a, b) for (a, b, q, nested) in fstr)
     if feat == "fnl":
         return any(len(q) == 1 and any(text[i] == "\n" and text[i - 1] != "\\" for i in range(a + 1, b))
-                   and (a <= off <= b if ob == "regions" else off >= a) for (a, b, q, nested) in fstr)
+                   and at_or_after(a, b) for (a, b, q, nested) in fstr)
     if feat == "fbrace":
         def unbalanced(a, b):
             t = text[a:b]
             return sum(t.count(c) for c in "([{") != sum(t.count(c) for c in ")]}")
+        # real_code's bracket counter is off from the literal on: newlines are joined or kept wrongly, which also derails
+        # primaries that cross a line break after it
+        if ob == "primary":
+            sp = info.get("span")
+            return sp is not None and "\n" in text[sp[0]:sp[1]] and any(unbalanced(a, b) and sp[0] >= a for (a, b, q, n) in fstr)
         return ob == "real_code" and any(unbalanced(a, b) and off >= a for (a, b, q, n) in fstr)
     if feat in ("escq", "adjstr"):
         r = info.get("range")
@@ -279,8 +295,23 @@ def sig_of(cls, feats, text=None, facts=None, fail=None):
     return "%s:%s" % (cls, "+".join(rel) or "plain")
 
 
+_ORACLE_CACHE = {}
+
+
 def run_oracle(text, offsets=None, llf=True):
-    """-> (facts|None, obs, fails)"""
+    """-> (facts|None, obs, fails); full runs (all offsets, with LogicalLineFinder) are memoised per text"""
+    if offsets is None and llf:
+        if text in _ORACLE_CACHE:
+            return _ORACLE_CACHE[text]
+        res = _run_oracle(text, None, True)
+        if len(_ORACLE_CACHE) > 64:
+            _ORACLE_CACHE.clear()
+        _ORACLE_CACHE[text] = res
+        return res
+    return _run_oracle(text, offsets, llf)
+
+
+def _run_oracle(text, offsets=None, llf=True):
     facts, why = c14_oracle.analyze(text)
     obs = observe(text, offsets=offsets, limit=10 ** 9, llf=llf)       # every offset of the text is queried
     if "crash" in obs:
@@ -299,7 +330,18 @@ def signature(obj):
     facts, obs, fails = run_oracle(text)
     if facts is None or not fails:
         return "none"
-    sig = sig_of(OBS_CLASS.get(fails[0][0], fails[0][0]), features(text, facts), text, facts, fails[0])
+    fail = fails[0]
+    want = OBS_CLASS.get(obj.get("observable"), obj.get("observable"))
+    for fl in fails:                         # every observable class is attributed on its own (see handle_case)
+        if OBS_CLASS.get(fl[0], fl[0]) == want:
+            fail = fl
+            break
+    sig = sig_of(OBS_CLASS.get(fail[0], fail[0]), features(text, facts), text, facts, fail)
+    # consequences of an f-literal the regular expression cannot delimit (per-line scanner, word finders after it) belong to
+    # the lexing finding of that literal
+    for fam in ("fnest", "fnl", "fbrace"):
+        if sig in ("logical:" + fam, "words:" + fam):
+            sig = "lexing:" + fam
     # where the model predicts the defect (Coq booleans lex_sane / shape_free, evaluated in the run that produced the
     # object) or disagreed with rope on the case, the failure is only attributed when the prediction matches
     flags = obj.get("model_flags")
@@ -308,7 +350,7 @@ def signature(obj):
             sig += "!model-and-rope-disagree"
         elif (sig.startswith("lexing:fnest") or sig.startswith("lexing:fnl")) and flags.get("lex_sane", False):
             sig += "!not-predicted-by-model"
-        elif sig.startswith("logical:") and sig != "logical:plain" and flags.get("shape_free", False):
+        elif sig.startswith("logical:") and ("escq" in sig or "adjstr" in sig) and flags.get("shape_free", False):
             sig += "!not-predicted-by-model"
     return sig
 
@@ -326,7 +368,7 @@ def replay(ctx, obj):
 def shrink(text, obs_class, budget=400):
     """Greedy reduction keeping: valid program, a failure of the same observable class first, no new features."""
     facts, obs, fails = run_oracle(text, offsets=None if obs_class == "words" else [], llf=(obs_class == "llf"))
-    if facts is None or not fails or OBS_CLASS.get(fails[0][0]) != obs_class:
+    if facts is None or not any(OBS_CLASS.get(f[0]) == obs_class for f in fails):
         return text
     feats0 = features(text, facts)
 
@@ -334,7 +376,7 @@ def shrink(text, obs_class, budget=400):
 
     def still(t):
         f2, o2, fl2 = run_oracle(t, offsets=cheap, llf=(obs_class == "llf"))
-        if f2 is None or not fl2 or OBS_CLASS.get(fl2[0][0]) != obs_class:
+        if f2 is None or not any(OBS_CLASS.get(f[0]) == obs_class for f in fl2):
             return False
         return features(t, f2) <= feats0
 
@@ -545,6 +587,7 @@ FIXED = RAW_F_CASES + [
     "s = \"\"\"a\\\"\"\" \"\"\"\n", "s = 'a\\\\'\nt = 1\n", "x=\"\"\"a\"\"\"\"b\"\n", "(\n", ")\nx\n", "x = ')'\n", "'''\n", "f(\n'''\n)'''\n)\n", "x = 1 ;\n",
     "\x0cx = 1\n", "x = 1\n\x0c\ny = 2\n", "x = a . b\n", "x = a.\\\n  b\n", "lambda: (yield)\n",
     # a keyword right after a dot (rope 2b4039e: _follows_dot): valid shapes first, then the invalid ones it was made for
+    "m = match.group(1)\n", "type.x.y = case.a\n", "print(match, type.mro(), _ .b)\n", "x = (match).case.type\n",
     "y = b if 3. else (c).r\n", "y = 3. if c else (d).e\n", "a1.is\n", "\u0663x.is\n", "x = (a) .is\n", ".is\n",
     "from . import a\n", "from .. import b\n", "y = 1. if c else 2\n", "z = 2. or x\n", "s.is\n", "a.in.b\n", "x = s.is_x + t.import_y\n",
     "bfr\"x\"", "rbu'y' ", "bBfF\"z\"\n", "bbbbb\"x\"", "fRb'''a'''", "xRbU''", "uuuu'a' rrrrr'b'", "fb\"{x}\"\n", "Fx = rbf'{'\n",
@@ -568,23 +611,36 @@ def handle_case(ctx, idx, text, obs, facts, codes, origin, flags=None):
     spec_codes = [c for c in codes if c >= 20]
     impl_codes = [c for c in codes if c < 20]
     if fails:
-        ob, loc, msg = fails[0][:3]
-        cls = OBS_CLASS.get(ob, ob)
-        replay["model_flags"] = dict(flags or {}, model_mismatch=bool(impl_codes))
-        sig = signature(dict(replay))
-        if any(f.get("property") == PROPERTY and f.get("signature") == sig for f in ctx.findings):
-            ctx.count("oracle_fail_known:" + sig)
-            ctx.violation(dict(replay, observable=ob, offset=loc, detail=msg), "known finding " + sig)
-            return
-        small = shrink(text, cls, budget=ctx.scale(120, 500))
-        f2, o2, fl2 = run_oracle(small)
-        if not fl2:
-            small, fl2 = text, fails
-        ctx.count("oracle_fail:" + cls)
-        ctx.violation(dict(replay, text=small, original=text if small != text else None, observable=fl2[0][0],
-                           offset=fl2[0][1], detail=fl2[0][2]),
-                      "C14 %s disagrees with the tokenizer on %r: %s" % (fl2[0][0], small[:120], fl2[0][2][:200]))
+        # every observable class that fails is attributed on its own: a known defect of one class (say real_code counting
+        # the brackets of an f-string) does not hide a different failure (say a wrong primary) on the same input
+        seen, unknown = set(), []
+        for fl in fails:
+            ob, loc, msg = fl[:3]
+            cls = OBS_CLASS.get(ob, ob)
+            if cls in seen:
+                continue
+            seen.add(cls)
+            obj = dict(replay, observable=ob, offset=loc, detail=msg, model_flags=dict(flags or {}, model_mismatch=bool(impl_codes)))
+            sig = signature(obj)
+            if any(f.get("property") == PROPERTY and f.get("signature") == sig for f in ctx.findings):
+                ctx.count("oracle_fail_known:" + sig)
+                ctx.violation(obj, "known finding " + sig)
+            else:
+                unknown.append((cls, fl))
+        for cls, fl in unknown[:2]:
+            small = shrink(text, cls, budget=ctx.scale(120, 500))
+            f2, o2, fl2 = run_oracle(small)
+            fl2 = [f for f in fl2 if OBS_CLASS.get(f[0], f[0]) == cls]
+            if not fl2:
+                small, fl2 = text, [fl]
+            ctx.count("oracle_fail:" + cls)
+            ctx.violation(dict(replay, text=small, original=text if small != text else None, observable=fl2[0][0],
+                               offset=fl2[0][1], detail=fl2[0][2]),
+                          "C14 %s disagrees with the tokenizer on %r: %s" % (fl2[0][0], small[:120], fl2[0][2][:200]))
     elif impl_codes:
+        if sum(1 for v in ctx.violations if v[2]) >= 5:
+            ctx.count("model_mismatch_not_reported_individually")      # (five are reported; the run goes on looking for failing inputs)
+            return
         what = ", ".join(CODE_NAMES.get(c, str(c)) for c in impl_codes)
         found = neighbourhood_search(ctx, text)
         if found is not None:
@@ -643,6 +699,8 @@ def run(ctx):
         texts.append((c14_gen.mutate(rng, base), "mutated"))
     for _ in range(ctx.scale(60, 600)):
         texts.append((c14_gen.tiny(rng), "tiny"))
+    for _ in range(ctx.scale(24, 150)):
+        texts.append((c14_gen.fstring_call_chain(rng), "fstring-call-chain"))
     for (t, path) in corpus_slices(rng, ctx.scale(14, 120), ctx.scale(45, 70)):
         texts.append((t, "corpus:" + path))
     import time
@@ -698,7 +756,7 @@ def run(ctx):
             ctx.count("tokenizer_statements", len(facts.stmts))
             ctx.count("name_tokens", len(facts.names))
         handle_case(ctx, idx, t, obs, facts, mism.get(idx, []), origin, flags=getattr(coq_compare, "flags", {}).get(idx))
-        if ctx.too_many():
+        if sum(1 for v in ctx.violations if not v[2]) >= 5:      # five violations with a failing input are enough
             break
     ctx.extra["valid_texts_checked_against_tokenize"] = nvalid
     ctx.extra["phase_seconds"] = {"generate+rope": round(t1 - t0, 1), "coq": round(t2 - t1, 1), "oracle+triage": round(time.time() - t2, 1)}
